@@ -282,5 +282,10 @@ func (ms msgServer) UpdateStakingParams(ctx context.Context, msg *poa.MsgUpdateS
 		MinCommissionRate: msg.Params.MinCommissionRate,
 	}
 
+	// same validation as x/staking's own MsgUpdateParams
+	if err := stakingParams.Validate(); err != nil {
+		return nil, err
+	}
+
 	return &poa.MsgUpdateStakingParamsResponse{}, ms.k.stakingKeeper.SetParams(ctx, stakingParams)
 }
